@@ -49,6 +49,15 @@ def random_sorted_table(rng, n):
     return (-1,) + tuple(rng.randrange(i) for i in range(1, n))
 
 
+# Magnitudes are part of the input space of everything that stores, writes or reads node tables (round trips, readers): values on both
+# sides of every integer width a column could be narrowed to (int8 / uint8 / int16 / uint16; well inside int32), ids far from 0, coordinates
+# whose four decimals need more than float32's 24 bits next to a large integer part, radii from denormal-small to huge.
+MAG_TYPES = [0, 7, 127, 128, 255, 256, 300, 32767, 32768, 65535, 65536, 70000]
+MAG_IDS = [32767, 32768, 65535, 65536, 999983, 10**6]
+MAG_COORDS = [100000.0, 123456.7891, -123456.7891, 99999.99995, 100000.0001, -100000.00005]
+MAG_RADII = [1e-5, 4.9e-5, 5.1e-5, 1e-12, 1e6, 1e12]
+
+
 LATTICE = [(0, 0, 0), (1, 0, 0), (0, 1, 0), (0, 0, 1), (1, 1, 0), (2, 0, 0), (0, 2, 1), (1, 1, 1), (2, 1, 0), (0, 0, 2), (3, 1, 2), (1, 3, 0)]
 
 
